@@ -250,3 +250,24 @@ func gen1(tag byte, k int) frame.Frame {
 }
 
 func refTypeOf(m message.Message) reflect.Type { return reflect.TypeOf(m).Elem() }
+
+// watchdog runs one scenario and turns "never finishes" into a reported failure: every scenario is a
+// finite sequence of bounded waits that completes within seconds on a tree where the property holds.
+func watchdog(limit time.Duration, f func() error) error {
+	done := make(chan error, 1)
+	go func() { done <- f() }()
+	select {
+	case err := <-done:
+		return err
+	case <-time.After(limit):
+		gs := sim.LibGoroutines()
+		return fmt.Errorf("the scenario did not complete within %v (normally well under a second): something the node should do within a bound never happened; %d library goroutines:\n%s", limit, len(gs), strings.Join(gs, "\n\n"))
+	}
+}
+
+const scenarioLimit = 4 * time.Minute
+
+// stalls records every moment at which this process was not scheduled for more than 60 ms; verdicts about
+// "the channel stayed open while the peer kept talking" are inconclusive across such a moment (an absolute
+// read deadline can expire while the node's reader is not running).
+var stalls = sim.StartStallMonitor(60 * time.Millisecond)
